@@ -121,6 +121,32 @@ fn c04() {
             }
         }
     }
+    // CALL-HISTORY independence: the encoding of a sequence does not depend on what was encoded (or refused) before it
+    let good = vec![Amf0Value::Utf8String("connect".into()), Amf0Value::Number(1.0), Amf0Value::Null, Amf0Value::Boolean(true)];
+    let first = serialize(&good);
+    let mut bad_name = HashMap::new(); bad_name.insert(String::new(), Amf0Value::Number(1.0));
+    let refused: Vec<Vec<Amf0Value>> = vec![
+        vec![Amf0Value::Number(5.0), Amf0Value::Utf8String("publish".into()), Amf0Value::Utf8String("x".repeat(65536))],
+        vec![Amf0Value::Null, Amf0Value::Boolean(false), Amf0Value::Object(bad_name)],
+        vec![Amf0Value::StrictArray(vec![Amf0Value::Number(1.0), Amf0Value::Utf8String("y".repeat(70000))])],
+    ];
+    for bad in refused {
+        let r = std::panic::catch_unwind(std::panic::AssertUnwindSafe(|| serialize(&bad)));
+        if r.is_err() { fail(format!("[c04] serialize panicked on {}", show(&bad))); }
+        let again = serialize(&good);
+        match (&first, &again) {
+            (Ok(a), Ok(b)) => if a != b { fail(format!("[c04] the encoding of {} changed after an earlier serialize() call was refused ({}): {} bytes before, {} bytes after, which decode to {}", show(&good), show(&bad), a.len(), b.len(), dec_all(b).map(|(v, _)| show(&v)).unwrap_or_else(|e| e))); },
+            (Ok(_), Err(e)) => fail(format!("[c04] {} is refused ({:?}) after an earlier serialize() call was refused ({}), but encoded before", show(&good), e, show(&bad))),
+            _ => {}
+        }
+    }
+    // ... nor does decoding: the same bytes decode to the same values after a failed decode
+    if let Ok(bytes) = &first {
+        let a = dec_all(bytes).map(|(v, _)| show(&v));
+        let _ = dec_all(&[2, 0xFF, 0xFF, b'a']); let _ = dec_all(&[0x0A, 0, 0, 0, 9, 5]); let _ = dec_all(&[3, 0, 1, b'k', 0x0D]);
+        let b = dec_all(bytes).map(|(v, _)| show(&v));
+        if a != b { fail(format!("[c04] decoding the same {} bytes gave {:?} before and {:?} after failed decodes", bytes.len(), a, b)); }
+    }
     // empty property name: must be refused (or round trip)
     let mut m = HashMap::new(); m.insert(String::new(), Amf0Value::Number(1.0));
     if let Ok(b) = serialize(&vec![Amf0Value::Object(m.clone())]) { if dec_all(&b).map(|(v, _)| same_seq(&v, &[Amf0Value::Object(m)])).unwrap_or(false) == false { fail("[c04] an object with an empty property name encodes but does not decode back".into()); } }
@@ -189,6 +215,15 @@ fn c14(exe: &str) {
         let mut b = vec![0x0A]; b.extend_from_slice(&c.to_be_bytes()); inputs.push((format!("strict array declaring {} elements, none present", c), b.clone()));
         let mut b2 = vec![]; for _ in 0..200 { b2.push(0x0A); b2.extend_from_slice(&c.to_be_bytes()); b2.push(9); } inputs.push((format!("200 sibling strict arrays each declaring {} elements", c), b2));
         let mut e = vec![0x08]; e.extend_from_slice(&c.to_be_bytes()); e.extend_from_slice(&[0, 0, 9]); inputs.push((format!("ECMA array declaring {} entries", c), e));
+    }
+    // EVERY marker byte followed by a length / count field that lies (16-bit and 32-bit, big endian), then three bytes: a decoder
+    // that gives a (new) marker a length-prefixed body must not size an allocation from the announced length
+    for mk in 0..=255u8 {
+        for c in [0x1000_0000u32, 0x0400_0000, 0x7FFF_FFFF, 0xFFFF_FFFF] {
+            let mut b = vec![mk]; b.extend_from_slice(&c.to_be_bytes()); b.extend_from_slice(b"abc");
+            inputs.push((format!("marker 0x{:02X} followed by the 32-bit field {} and three bytes", mk, c), b.clone()));
+            let mut n = vec![0x0A, 0, 0, 0, 1]; n.extend_from_slice(&b); inputs.push((format!("strict array holding marker 0x{:02X} followed by the 32-bit field {} and three bytes", mk, c), n));
+        }
     }
     inputs.push(("string declaring 65535 bytes, none present".into(), vec![2, 0xFF, 0xFF]));
     inputs.push(("object property name declaring 65535 bytes".into(), vec![3, 0xFF, 0xFF]));
